@@ -12,7 +12,7 @@ from __future__ import annotations
 import ast
 from fractions import Fraction
 
-from ..interp import Interp, Phi, Ref, Tup, vtext
+from ..interp import Interp, Phi, Ref, Tup, vtext, make_flag_decide
 from ..nf import NF
 from ..nfdomain import NFDomain
 from ..program import AnalysisError, Program, bind_args, unparse, short, walk_no_nested
@@ -155,14 +155,7 @@ def update_normal_form(prog: Program, flags: dict[str, bool]):
                 return a
         return NotImplemented
 
-    def decide(test, fr, it):
-        t = unparse(test)
-        for k, v in flags.items():
-            if t == f"self.{k}":
-                return v
-        if t == "self.vertdiff or self.vertical_advection":
-            return flags.get("vertdiff", False) or flags.get("vertical_advection", False)
-        return None
+    decide = make_flag_decide(flags)
 
     it = Interp(prog, dom, depth=3, call_hook=hook, decide_hook=decide)
     # attributes the constructor derives from its parameters (e.g. a cached standard deviation)
